@@ -52,14 +52,32 @@ var awkward = []string{
 	"=", "<<", strings.Repeat("設", 20), strings.Repeat("ж", 30) + " tar", strings.Repeat("é", 26), "find . -name '*.go' -exec gofmt -w {} \\;", "awk '{print \"Lines:\" $1}'", strings.Repeat("long", 300), "y", "Off", ".inf", "-.5", "\"", "'", "\\",
 }
 
+// yamlRunes: every rune the YAML scanner, the emitter's style choice, JSON or a terminal treats specially; composed
+// strings over this alphabet reach style decisions no fixed sample anticipates (D12: first rune a line break; D13: first rune
+// U+2028 / U+2029, which YAML counts as line breaks too).
+var yamlRunes = []rune{'a', 'b', ' ', '\n', '\r', '\t', 0x2028, 0x2029, 0x85, 0xA0, 0xFEFF, ':', '#', '-', '?', '|', '>', '"', '\'', '\\', '[', ']', '{', '}', ',', '&', '*', '!', '%', '@', '`', '~', '=', '<', 0x7f, 0x1b, 0xFFFD, 0xE9, 0x1F600}
+
+func genComposed(rt *rapid.T, label string) string {
+	n := rapid.IntRange(1, 6).Draw(rt, label+"-n")
+	var sb strings.Builder
+	for i := 0; i < n; i++ {
+		sb.WriteRune(rapid.SampledFrom(yamlRunes).Draw(rt, label+"-r"))
+	}
+	return sb.String()
+}
+
 func genText(rt *rapid.T, label string) string {
 	if rapid.IntRange(0, 79).Draw(rt, label+"-huge") == 40 {
 		// close to what one argv element can carry (128 KiB on Linux): buffered line readers give up at 64 KiB
 		return genWord(rt, label+"-w1") + " " + strings.Repeat("x", rapid.SampledFrom([]int{65535, 65536, 70000, 120000}).Draw(rt, label+"-hugelen"))
 	}
-	switch rapid.IntRange(0, 5).Draw(rt, label+"-shape") {
+	switch rapid.IntRange(0, 7).Draw(rt, label+"-shape") {
 	case 0:
 		return rapid.SampledFrom(awkward).Draw(rt, label+"-awk")
+	case 6:
+		return genComposed(rt, label+"-comp")
+	case 7:
+		return genComposed(rt, label+"-comp") + genWord(rt, label+"-w1") + genComposed(rt, label+"-comp2")
 	case 1:
 		return genWord(rt, label+"-w1") + " " + rapid.SampledFrom(awkward).Draw(rt, label+"-awk")
 	case 2:
